@@ -81,7 +81,12 @@ func init() {
 				RedeemBy: []string{"owner"}, RefreshBy: []string{"owner"}, RevokeBy: []string{"owner", "other", "casevariant", "badsecret", "owner-forged"}, Hints: []string{"", "access_token", "refresh_token", "garbage", "id_token", "authorize_code"},
 				Advances: []int{3700}})
 		}
-		r.Bounds = map[string]any{"history_depth": depth, "max_grants": 2, "strategies": []string{"hmac", "jwt"},
+		// an application revocation handler registered in front of the library's (one level shallower)
+		specs = append(specs, FamSpec{Prop: "C08", Profile: Profile{RTLifespan: 7200, AppRevocationHandlerFirst: true}, Depth: depth - 1, MaxGrants: 2,
+			Grants:   []Op{{Op: "authz", Client: "A", Flow: "code"}, {Op: "password", Client: "A"}},
+			RedeemBy: []string{"owner"}, RefreshBy: []string{"owner"}, RevokeBy: []string{"owner", "other", "badsecret"}, Hints: []string{"", "access_token", "refresh_token", "garbage"},
+			Advances: []int{3700}})
+		r.Bounds = map[string]any{"history_depth": depth, "max_grants": 2, "strategies": []string{"hmac", "jwt"}, "application_revocation_handler_in_front": "hmac, one level shallower",
 			"alphabet": "grant(code A, hybrid code+token A, password A, code P) redeem(owner) refresh(owner) revoke(every token ever seen x caller owner|other|case-variant|badsecret|owner presenting a forged string with the token's signature part x hint none|access_token|refresh_token|garbage|id_token|authorize_code) advance(3700s)"}
 		r.Rule = "explicit-state BFS over API histories; revocation is attempted on tokens in every liveness state (live, rotated, revoked, killed, expired) reached by the search; each transition is followed by introspection of every token and, where the statement says 'changes nothing', by equality of the complete store dump"
 		r.Assumptions = []string{"model: owner revocation of a live token kills it and the token issued alongside it; other tokens of the same grant are not pinned (adopted from introspection); foreign client => unauthorized_client and unchanged store; failed client authentication => unchanged store; already-invalid tokens => success and unchanged store"}
